@@ -359,14 +359,14 @@ def run(res, tier):
         p = facts.load(cfg)
         res.configs.append(p.build_info)
         n_ow, cov = wr1(p, res)
-        res.floor("WR-1", "overwrite-type shape functions", n_ow, 160)
-        res.floor("WR-1", "covered overwrite-type shape functions", cov, 140)
+        res.floor("WR-1", "overwrite-type shape functions", n_ow, 160, ref_min=100)
+        res.floor("WR-1", "covered overwrite-type shape functions", cov, 140, ref_min=90)
         n2, sites = wr2(p, res)
         res.floor("WR-2", "shape functions with column accessors", n2, 85)
         res.extra["accessor_sites"] = sites
         n3 = wr3(p, res)
         res.extra["as_ptr_sources"] = n3
-        res.floor("WR-3", "as_ptr sources on read-only operands", n3, 20)
+        res.floor("WR-3", "as_ptr sources on read-only operands", n3, 20, ref_min=2)
         nc = col1(p, res)
         res.floor("COL-1", "core noise-free operations", nc, 12)
         n4 = wr4(p, res)
